@@ -106,6 +106,14 @@ CHECKS["C03"] = {
     "design_ref": "DESIGN.md 2.2, 3 (C03)",
 }
 
+CHECKS["C11"] = {
+    "engine": "K",
+    "technique": "deterministic simulation: evaluate_on_grid source (3-D output buffer) under a seeded baton scheduler driven through the real map(dz=, operation=) front-end + independent column-sampling oracle",
+    "text": "Seeded search over 3-D AMR tilings x origins x orientations x windows (given or automatic) x slab thickness (one pixel to the domain, incl. slabs much thinner than the cells they cut) x (x, y, z) resolutions x the eight reductions x simulated kernel schedules. Every pixel column is sampled independently at the evenly spaced depths (count observed at the kernel seam and required to be an admissible choice), each sample located as in C03, reduced with numpy, times the depth step and unit x length for sum/nansum; columns with a sample in the face band are counted and skipped. T=1 and scheduled runs must agree. Sampling, not proof.",
+    "note": "Trusted: as C03; numpy's reductions as the meaning of the eight operations; 2-D meshes are excluded (no extent along the normal).",
+    "design_ref": "DESIGN.md 2.2, 3 (C11)",
+}
+
 PENDING_REASON = "check not built yet in this snapshot of /verif (planned and applicable, see DESIGN.md section 3); not claimed until its check exists"
 ALL = ["C%02d" % i for i in range(1, 21)]
 
